@@ -43,7 +43,7 @@ type c12Case struct {
 // Operations any goroutine may issue at any time (the daemon's request paths and status queries).
 var c12Common = []string{"syncdb-wait", "syncdb-wait", "syncdb-wait", "sync", "sync", "sync", "rsync", "rsync", "rsync", "ckpt-passive", "ckpt-passive", "ckpt-passive",
 	"ckpt-full", "ckpt-full", "ckpt-restart", "ckpt-restart", "ckpt-truncate", "ckpt-truncate", "status", "status", "status", "diag", "diag", "crc64", "crc64",
-	"enable", "enable", "disable", "disable", "register", "unregister"}
+	"enable", "enable", "disable", "disable", "register", "unregister", "disable-deadline", "disable-cancelled"}
 
 // Per-level work is driven by exactly one goroutine per level, as in the daemon (one monitor per compaction level,
 // one for snapshots + snapshot retention, one for level-0 retention). The store's own level monitors are switched off
@@ -239,6 +239,8 @@ func execC12(c c12Case) (res core.Result) {
 			res.Violation.Msg += diag()
 		}
 	}()
+	var lifeGate sync.RWMutex
+	var deadlineCloses, deadlineCloseErrs atomic.Int64
 	// watchdog-wrapped op
 	runOp := func(name string, fn func(context.Context) error) {
 		done := make(chan struct{})
@@ -335,6 +337,8 @@ func execC12(c c12Case) (res core.Result) {
 				runOp(name, func(ctx context.Context) error { _, _, err := d.CRC64(ctx); return err })
 			}
 		case "register":
+			lifeGate.RLock()
+			defer lifeGate.RUnlock()
 			nd := e.newDB()
 			nd.MinCheckpointPageN = c.MinCkpt
 			allMu.Lock()
@@ -353,17 +357,53 @@ func execC12(c c12Case) (res core.Result) {
 				setV(&core.Violation{Oracle: "duplicate-registration", Msg: fmt.Sprintf("store manages %d instances of %s", n, e.dbPath)})
 			}
 		case "unregister":
+			lifeGate.RLock()
+			defer lifeGate.RUnlock()
 			t0 := time.Now()
 			runOp(name, func(ctx context.Context) error { return st.UnregisterDB(ctx, e.dbPath) })
 			note(&unregIv, t0)
 		case "enable":
+			lifeGate.RLock()
+			defer lifeGate.RUnlock()
 			t0 := time.Now()
 			runOp(name, func(ctx context.Context) error { return st.EnableDB(ctx, e.dbPath) })
 			note(&regIv, t0)
 		case "disable":
+			lifeGate.RLock()
+			defer lifeGate.RUnlock()
 			t0 := time.Now()
 			runOp(name, func(ctx context.Context) error { return st.DisableDB(ctx, e.dbPath) })
 			note(&regIv, t0)
+		case "disable-deadline", "disable-cancelled":
+			// A stop request whose caller gives up (deadline a few ms away, or already cancelled) while other operations keep
+			// the database busy. No other lifecycle request (enable / disable / register / unregister) runs during it - the
+			// harness gate below - so the state of the instance right after the call is the call's own doing: "closing always
+			// completes" means the instance is closed whatever the call returned.
+			lifeGate.Lock()
+			defer lifeGate.Unlock()
+			d := cur()
+			if d == nil {
+				return
+			}
+			t0 := time.Now()
+			var callErr error
+			runOp(name, func(ctx context.Context) error {
+				cctx, cancel := context.WithTimeout(ctx, 3*time.Millisecond)
+				if name == "disable-cancelled" {
+					cancel()
+				}
+				defer cancel()
+				callErr = d.Close(cctx)
+				return callErr
+			})
+			note(&regIv, t0)
+			deadlineCloses.Add(1)
+			if callErr != nil {
+				deadlineCloseErrs.Add(1)
+			}
+			if d.IsOpen() {
+				setV(&core.Violation{Oracle: "close-incomplete", Msg: fmt.Sprintf("DB.Close with an expiring/cancelled caller context returned %v and left the database open (read lock and handles held, monitors stopped)", callErr)})
+			}
 		}
 	}
 
@@ -444,6 +484,12 @@ func execC12(c c12Case) (res core.Result) {
 		_ = st.Close(ctx)
 		app.Close()
 		return res
+	}
+	if deadlineCloses.Load() > 0 {
+		res.Labels = append(res.Labels, "close-with-expiring-context")
+	}
+	if deadlineCloseErrs.Load() > 0 {
+		res.Labels = append(res.Labels, "close-with-expiring-context-returned-error")
 	}
 	if overlap.Load() > 0 {
 		res.Labels = append(res.Labels, "ops-overlapped")
